@@ -188,6 +188,56 @@ struct Engine
                 break;
         }
         inspect();
+        // "assignable": an operand whose contents are unspecified after the failure must accept a (now succeeding)
+        // assignment and hold the assigned value afterwards, or at least a clear()
+        for (int t = 0; t < 2; ++t)
+        {
+            if (!m[t].present || !m[t].unspec || m[t].moved) continue;
+            const int s = 1 - t;
+            bool assigned = false;
+#if HAVE_COPY
+            if constexpr (COPYABLE)
+            {
+                if (m[s].present && !m[s].moved && !m[s].unspec)
+                {
+                    begin_op();
+                    LIB(*v[t] = std::as_const(*v[s]));
+                    const int keep = m[t].arena;
+                    m[t] = m[s];
+                    m[t].arena = TR::cc ? m[s].arena : keep;
+                    assigned = true;
+                }
+            }
+#endif
+            if (!assigned)
+            {
+                begin_op();
+                LIB(v[t]->clear());
+                if (v[t]->size() != 0 || !v[t]->empty())
+                    report("VAL", "values", "clear-after-fault", "after a failed operation and clear() size() == %zu", v[t]->size());
+            }
+        }
+#if HAVE_ELEM && HAVE_ELEM_COPY
+        if constexpr (COPYABLE)
+        {
+            for (int e = 0; e < 3; ++e)
+            {
+                if (!xm[e].present || !xm[e].moved || (last.k != O_XCA && last.k != O_XMA && last.k != O_XAR)) continue;
+                for (int f = 0; f < 3; ++f)
+                {
+                    if (f == e || !xm[f].present || xm[f].moved) continue;
+                    begin_op();
+                    LIB(*x[e] = std::as_const(*x[f]));
+                    const int keep = xm[e].arena, id = xm[e].e.id;
+                    xm[e] = xm[f];
+                    xm[e].e.id = id;
+                    xm[e].arena = TR::cc ? xm[f].arena : keep;
+                    break;
+                }
+            }
+        }
+#endif
+        inspect();
     }
 
     // ---------------------------------------------------------------- helpers
